@@ -469,7 +469,7 @@ func (h *hostile) smppBody(body string, coding int) {
 func (h *hostile) auxParsers() {
 	c := h.r.C
 	var s []byte
-	switch c.Pick(3, 2, 2, 2, 2, 3, 2) {
+	switch c.Pick(3, 2, 2, 2, 2, 3, 2, 3) {
 	case 5:
 		// packed GSM 7-bit: septet sequences over the branch-driving alphabet, packed by the reference packer
 		alpha := []byte{0x00, 0x01, 0x0d, 0x1b, 0x3f, 0x40, 0x7f, 0x65, 0x0a, 0x41}
@@ -558,6 +558,11 @@ func (h *hostile) auxParsers() {
 			s = append(s, 0, 2, 0)
 		case 3:
 			s = append(s, 0, 2, 0xff, 0xff, 1, 2)
+		}
+	case 7: // bracket soup for the signature helpers: every short arrangement of brackets, blanks and letters
+		toks := []string{"\u3010", "\u3011", "[", "]", " ", "a", "\u7b7e", "  ", "ab"}
+		for i, n := 0, 1+c.Intn(9); i < n; i++ {
+			s = append(s, toks[c.Intn(len(toks))]...)
 		}
 	case 6: // a stream whose length prefix is small: 0..40, then arbitrary octets
 		s = append([]byte{0, 0, 0, byte(c.Intn(41))}, c.Blob(c.Size(60, 0, 7, 8, 9, 11, 12, 13), "any")...)
@@ -706,7 +711,7 @@ func (h *hostile) framers(s []byte) {
 	for _, it := range []struct {
 		name string
 		cd   codec.Codec
-	}{{"CMPPCodec", codec.NewCMPPCodec()}, {"SMPPCodec", codec.NewSMPPCodec()}} {
+	}{{"CMPPCodec", codec.NewCMPPCodec()}, {"SMPPCodec", codec.NewSMPPCodec()}, {"CMPPCodec", new(codec.CMPPCodec)}, {"SMPPCodec", new(codec.SMPPCodec)}} {
 		for _, blocked := range []bool{false, true} {
 			site := it.name + ".Decode"
 			if blocked {
